@@ -144,10 +144,10 @@ class Model:
                     return pl
                 sc.multiprocessing = types.SimpleNamespace(Pool=owned_pool)
 
-                def slow(n1, n2, p1, p2, d1, d2, r0, L0, _f=real_wc, _d=delays):
+                def slow(n1, n2, p1, p2, d1, d2, r0, L0, _f=real_wc, _d=delays, **kw):
                     key = int(abs(float(np.sum(p1)) * 7919 + float(np.sum(p2)) * 104729 + n1 * 31 + n2) * 1000) % len(_d)
                     time.sleep(_d[key] / 1000.0)
-                    return _f(n1, n2, p1, p2, d1, d2, r0, L0)
+                    return _f(n1, n2, p1, p2, d1, d2, r0, L0, **kw)
                 sc.wfs_covariance = slow
                 if max(delays) > 0 and self.obj.threads >= 2:
                     self.flags.add("delayed_real")
